@@ -805,6 +805,11 @@ func (c *Context) Ln(d, x *Decimal) (Condition, error) {
 
 			ed.Add(&tmp1, &tmp1, &tmp4)
 
+			if err := ed.Err(); err != nil {
+				// Once ed holds an error its operations are skipped and
+				// the terms stop shrinking.
+				return 0, err
+			}
 			if tmp4.Abs(&tmp4).Cmp(&eps) <= 0 {
 				break
 			}
